@@ -40,8 +40,28 @@ void genHttp(Prng& r, Plan& p, int tier)
 		p.p["knob.net.lat_us"] = 1 + r.below(100000);
 	if (r.below(4) == 0)
 		p.p["knob.net.sndbuf"] = 512 << r.below(8);
+	if (p.p.count("knob.net.sndbuf"))
+	{
+		// a multi-megabyte body through a send buffer of a few hundred bytes is thousands of blocked sends and wake-ups:
+		// legitimately beyond the step cap that judges termination. Keep the number of buffer fills per body below 2000.
+		int64_t maxLen = 0;
+		for (auto& o : p.ops)
+			if (o.k == "req")
+				maxLen = std::max(maxLen, std::max(o.arg(3), o.arg(4)));
+		while (p.p["knob.net.sndbuf"] * 2000 < maxLen)
+			p.p["knob.net.sndbuf"] *= 2;
+	}
 	if (r.below(2))
+	{
 		p.p["knob.http.send_block"] = (int64_t)biased(r, 1, 128000, {1, 7, 4096, 16000, 128000});
+		// same fence for the library's own block size (a knob of the ASL_VERIF build): at most 20000 blocks per body
+		int64_t maxLen = 0;
+		for (auto& o : p.ops)
+			if (o.k == "req")
+				maxLen = std::max(maxLen, std::max(o.arg(3), o.arg(4)));
+		while (p.p["knob.http.send_block"] * 20000 < maxLen)
+			p.p["knob.http.send_block"] *= 2;
+	}
 	// relaxed configuration (reported separately): one connection is reset after k bytes
 	if (r.below(6) == 0)
 	{
